@@ -32,6 +32,7 @@ import dns.rdatatype
 import dns.renderer
 import dns.rrset
 import dns.tsig
+import dns.tsigkeyring
 import dns.update
 
 from harness import core
@@ -626,6 +627,10 @@ def eval_case(ctx: Ctx, c: dict):
         eval_mac(ctx, c, rep)
     elif k == "usetsig":
         eval_usetsig(ctx, c, rep)
+    elif k == "exch":
+        eval_exch(ctx, c, rep)
+    elif k == "krtext":
+        eval_krtext(ctx, c, rep)
     else:
         raise ValueError(k)
 
@@ -713,6 +718,7 @@ def eval_msg(ctx, c, rep):
                 fail(ctx, "C14/validate/time-outside-fudge-accepted",
                          f"a message signed at {now} with fudge {p['fudge']} was accepted at {vnow}", rep)
             ctx.count("validate.outside-window")
+    extra_routes(ctx, c, rep, w, t, key, keyring, p, now, rm)
     # every single-bit alteration
     if c.get("flips") and p.get("error", 0) == 0:
         bits = range(len(w) * 8) if c["flips"] == "all" else c["flips"]
@@ -728,6 +734,101 @@ def eval_msg(ctx, c, rep):
         ctx.count("flip.bits", len(v))
 
 
+def forge_mac(w, t, newmac):
+    """the signed message with its MAC field replaced (MAC size and RDLENGTH adjusted), independently of dnspython"""
+    rd = t["rd"]
+    end = rd + t["rdlen"]
+    _, ae = ref_name(w[:end], rd)
+    macoff = ae + 10
+    tail = w[macoff + len(t["mac"]):end]
+    rdata = w[rd:ae + 8] + struct.pack("!H", len(newmac)) + newmac + tail
+    return w[:rd - 2] + struct.pack("!H", len(rdata)) + rdata
+
+
+def extra_routes(ctx, c, rep, w, t, key, keyring, p, now, rm):
+    """routes and option values around one genuine signed message `w` (only when it reports no TSIG error):
+    keyring=True/False, continue_on_error, shortened / emptied / lengthened MAC fields, a second to_wire of the same
+    message object, Message.mac / keyname / keyalgorithm accessors"""
+    if p.get("error", 0) != 0:
+        return
+    sel = c.get("routes", 0)
+    # keyring=True is "no keyring" (signed messages must fail); keyring=False switches validation off
+    if sel & 1:
+        for kr in (True, False):
+            m2, e, log = lib_read(w, kr, now, rm, None, False)
+            corr_read(ctx, c, w, kr, now, rm, "none", False, m2, e, log)
+            if kr is True and e is None:
+                fail(ctx, "C14/from_wire/keyring-true-accepted", "from_wire(keyring=True) returned a signed message", rep)
+            if kr is True and e is not None and not isinstance(e, dns.exception.DNSException):
+                fail(ctx, "C14/from_wire/keyring-true-foreign:" + type(e).__name__, f"from_wire(keyring=True) raised {e!r}", rep)
+            if kr is False and e is not None:
+                fail(ctx, "C14/from_wire/keyring-false-raises:" + type(e).__name__, f"from_wire(keyring=False) (validation off) raised {e!r}", rep)
+            ctx.count("route.keyring-" + str(kr))
+    # a MAC field that is a proper prefix (incl. empty) of the right MAC, or the right MAC plus an octet, never verifies
+    if sel & 2:
+        mac = t["mac"]
+        for newmac in (b"", mac[:1], mac[:4], mac[:len(mac) // 2], mac[:-1], mac + b"\0", mac + mac):
+            if newmac == mac:
+                continue
+            w2 = forge_mac(w, t, newmac)
+            m2, e, log = lib_read(w2, keyring, now, rm, None, False)
+            corr_read(ctx, c, w2, keyring, now, rm, "none", False, m2, e, log)
+            ctx.count("route.mac-length." + ("rejected" if e is not None else "ACCEPTED"))
+            if e is None and m2.had_tsig:
+                fail(ctx, "C14/validate/wrong-length-mac-accepted",
+                     f"a TSIG whose MAC field holds {len(newmac)} octets (the genuine MAC has {len(mac)}, {key.algorithm}) validates", rep)
+    # continue_on_error=True: an altered message must not come back as a validated message without a recorded error
+    if sel & 4:
+        comps0 = ref_components(w, t)
+        n = len(w) * 8
+        for j in range(12):
+            i = 16 + (c["now"] * 7919 + j * 104729) % (n - 16)
+            w2 = flip(w, i)
+            CLOCK.t = now
+            try:
+                m2 = dns.message.from_wire(w2, keyring=keyring, request_mac=rm, continue_on_error=True)
+            except BaseException as e:
+                ctx.count("route.coe.raises")
+                continue
+            ctx.count("route.coe.returned")
+            if m2.had_tsig and not m2.errors:
+                try:
+                    t2 = ref_tsig(w2)
+                    same = t2 is not None and ref_components(w2, t2) == comps0 and t2["mac"] == t["mac"]
+                except RefError:
+                    same = False
+                if not same:
+                    fail(ctx, "C14/from_wire/continue_on_error/altered-accepted-silently",
+                         f"bit {i} altered, from_wire(continue_on_error=True) returned a message with had_tsig and no recorded error", rep | {"bit": i})
+    # the same Message object rendered a second time (retransmission under a new id, later): signed afresh
+    if sel & 8 and c.get("signer", "lib") == "lib" and not c["body"].get("update"):
+        m = mk_message(c["body"])
+        m.use_tsig(key, fudge=p["fudge"], original_id=p.get("orig_id"), other_data=bytes.fromhex(p.get("other", "")))
+        m.request_mac = rm
+        CLOCK.t = now
+        w1 = m.to_wire()
+        if m.mac != ref_tsig(w1)["mac"] or m.keyname != key.name or m.keyalgorithm != key.algorithm:
+            fail(ctx, "C14/sign/accessors", "Message.mac / keyname / keyalgorithm after to_wire differ from the TSIG RR written", rep)
+        oid = p.get("orig_id") if p.get("orig_id") is not None else c["body"]["id"]
+        m.id = (m.id + 1 + c["now"] % 7) & 0xFFFF
+        rr = dns.rrset.from_text("again.example.", 5, "IN", "TXT", '"second rendering"')
+        m.additional.append(rr)
+        now2 = now + 1 + c["now"] % 1000
+        CLOCK.t = now2
+        w2 = m.to_wire()
+        p2 = dict(p, orig_id=oid)
+        t2 = check_signed(ctx, c, rep, w2, None, key, p2, now2, rm, None, "second to_wire of the same message")
+        if t2 is not None:
+            m3, e, log = lib_read(w2, keyring, now2, rm, None, False)
+            corr_read(ctx, c, w2, keyring, now2, rm, "none", False, m3, e, log)
+            if e is not None or not m3.had_tsig:
+                fail(ctx, "C14/validate/genuine-rejected/second-to_wire",
+                     f"the second rendering of a signed message (new id, one more record, {now2 - now} s later) does not validate: {e!r}", rep)
+            elif m3.mac != t2["mac"]:
+                fail(ctx, "C14/sign/accessors", "Message.mac of the parsed message differs from the MAC on the wire", rep)
+        ctx.count("route.second-to_wire")
+
+
 MUTS = ["secret", "keyname-key", "keyname-dict-missing", "keyname-dict-wrongkey", "keyname-callable-missing", "keyname-callable-wrongkey", "algorithm", "time", "request-mac", "tsig-error",
         "no-keyring", "not-last-extra-rr", "not-last-answer-section", "two-tsigs", "class-not-any", "arcount-zero"]
 
@@ -738,7 +839,10 @@ def eval_reject(ctx, c, rep):
     now = c["now"]
     rm = bytes.fromhex(c.get("request_mac", ""))
     mut = c["mut"]
-    w, _, rec = lib_sign(c["body"], key, p, now, rm, None, False)
+    w, _, rec = lib_sign(c["body"], key, p, now, rm, None, False, via=c.get("signer", "lib"))
+    if mut == "tsig-error":
+        # RFC 8945 5.3.2: a BADTIME answer is signed; whatever the error, what the library signs is the RFC HMAC
+        check_signed(ctx, c, rep, w, rec, key, p, now, rm, None, f"to_wire with tsig_error={p.get('error')}")
     t = ref_tsig(w)
     keyring, vnow, vrm = key, now, rm
     must_form = False
@@ -1008,6 +1112,136 @@ def eval_mac(ctx, c, rep):
         fail(ctx, f"C14/mac/mac_sizes/{str(key.algorithm).lower()}", f"mac_sizes[{key.algorithm}] = {dns.tsig.mac_sizes.get(key.algorithm)}, RFC length {len(exp)}", rep)
 
 
+def eval_exch(ctx, c, rep):
+    """query / response: the client signs a query, the server reads it with its keyring, builds the answer with
+    dns.message.make_response (TSIG parameters and request MAC taken from the parsed query), the client reads the
+    answer bound to the MAC of its query (what dns.query does: request_mac=query.mac)"""
+    key = mk_key(c["key"])
+    now = c["now"]
+    q = mk_message(c["body"])
+    q.use_tsig(key, fudge=c["qfudge"])
+    CLOCK.t = now
+    qw = q.to_wire()
+    qt = ref_tsig(qw)
+    skr = mk_keyring(c["skeyring"], key)
+    sq, e, log = lib_read(qw, skr, now + c["d1"], b"", None, False)
+    corr_read(ctx, c, qw, skr, now + c["d1"], b"", "none", False, sq, e, log)
+    if e is not None or not sq.had_tsig:
+        fail(ctx, "C14/validate/genuine-rejected/query", f"server side: the signed query does not validate: {e!r}", rep)
+        return
+    if sq.mac != qt["mac"] or q.mac != qt["mac"]:
+        fail(ctx, "C14/sign/accessors", "Message.mac of the query (signer or reader side) is not the MAC on the wire", rep)
+    kw = {}
+    if c.get("rfudge") is not None:
+        kw["fudge"] = c["rfudge"]
+    if c.get("rerror"):
+        kw["tsig_error"] = c["rerror"]
+    try:
+        r = dns.message.make_response(sq, **kw)
+    except BaseException as e:
+        fail(ctx, "C14/make_response/raises:" + type(e).__name__, f"make_response of a validated signed query raised {e!r}", rep)
+        return
+    for sec, name, ttl, rdtype, text in c["answers"]:
+        r.find_rrset([r.answer, r.authority, r.additional][sec - 1], dns.name.from_text(name), dns.rdataclass.IN,
+                     dns.rdatatype.from_text(rdtype), create=True).update(dns.rrset.from_text(name, ttl, "IN", rdtype, text))
+    now2 = now + c["d1"] + c["d2"]
+    CLOCK.t = now2
+    n0 = len(SHIM.log)
+    try:
+        rw = r.to_wire()
+    except BaseException as e:
+        fail(ctx, "C14/make_response/to_wire-raises:" + type(e).__name__, f"rendering the response raised {e!r}", rep)
+        return
+    if not r.had_tsig:
+        fail(ctx, "C14/make_response/unsigned", "the response to a signed, validated query carries no TSIG", rep)
+        return
+    # the key the server resolved (a bytes dict entry becomes a Key named like the owner on the wire)
+    skey = sq.keyring
+    p = {"fudge": c["rfudge"] if c.get("rfudge") is not None else 300, "error": c.get("rerror", 0)}
+    t = check_signed(ctx, c, rep, rw, None, skey, p, now2, qt["mac"], None, "make_response + to_wire")
+    if t is None:
+        return
+    # the client: bound to its own query's MAC
+    m2, e, log = lib_read(rw, key, now2 + c["d3"], q.mac, None, False)
+    corr_read(ctx, c, rw, key, now2 + c["d3"], q.mac, "none", False, m2, e, log)
+    ctx.count("exch." + c["skeyring"] + "." + ("err%d" % c["rerror"] if c.get("rerror") else "ok"))
+    if c.get("rerror"):
+        if e is None:
+            fail(ctx, "C14/validate/tsig-error-accepted", f"a response whose TSIG reports error {c['rerror']} was accepted", rep)
+        return
+    if e is not None or not m2.had_tsig:
+        fail(ctx, "C14/validate/genuine-rejected/response",
+             f"the response made by make_response for a signed query does not validate against the query's MAC: {e!r}", rep)
+        return
+    # ... and to no other request MAC (absent, or that of another query)
+    for other in (b"", bytes([qt["mac"][0] ^ 0x80]) + qt["mac"][1:], qt["mac"][:-1]):
+        m3, e3, log3 = lib_read(rw, key, now2 + c["d3"], other, None, False)
+        corr_read(ctx, c, rw, key, now2 + c["d3"], other, "none", False, m3, e3, log3)
+        if e3 is None:
+            fail(ctx, "C14/validate/accepted/request-mac",
+                 f"the response validates against a request MAC ({other.hex() or 'none'}) that is not its query's", rep)
+    if c.get("flips"):
+        bits = range(len(rw) * 8) if c["flips"] == "all" else c["flips"]
+        scan_flips(ctx, c, rep, rw, key, now2 + c["d3"], q.mac, bits, f"response, {key.algorithm}")
+
+
+def eval_krtext(ctx, c, rep):
+    """dns.tsigkeyring text <-> binary, Key built from base64 text / algorithm text, and signing through such a keyring"""
+    import base64 as _b64
+    names = c["names"]
+    secrets = [bytes.fromhex(x) for x in c["secrets"]]
+    textring = {}
+    for n, sec, alg in zip(names, secrets, c["algs"]):
+        b64 = _b64.b64encode(sec).decode()
+        textring[n] = b64 if alg is None else (alg, b64)
+    try:
+        kr = dns.tsigkeyring.from_text(textring)
+    except BaseException as e:
+        fail(ctx, "C14/tsigkeyring/from_text-raises:" + type(e).__name__, f"from_text({textring!r}) raised {e!r}", rep)
+        return
+    for n, sec, alg in zip(names, secrets, c["algs"]):
+        v = kr.get(dns.name.from_text(n))
+        if alg is None:
+            ok = isinstance(v, bytes) and v == sec
+        else:
+            ok = isinstance(v, dns.tsig.Key) and v.secret == sec and v.algorithm == dns.name.from_text(alg) \
+                and v.name == dns.name.from_text(n) and v.algorithm.to_digestable() == dns.name.from_text(alg).to_digestable()
+        if not ok:
+            fail(ctx, "C14/tsigkeyring/from_text/value", f"from_text gives {v!r} for {n} = ({alg}, {sec.hex()})", rep)
+            return
+        # the same key spelled as text to the Key constructor
+        k2 = dns.tsig.Key(n, _b64.b64encode(sec).decode(), alg or "hmac-sha256")
+        k3 = dns.tsig.Key(dns.name.from_text(n), sec, dns.name.from_text(alg or "hmac-sha256"))
+        if k2.secret != sec or k2.name != k3.name or k2.algorithm != k3.algorithm or not (k2 == k3):
+            fail(ctx, "C14/key/text-constructor", f"Key({n!r}, base64 text, {alg!r}) differs from the same key given as Name/bytes/Name", rep)
+    back = dns.tsigkeyring.to_text(kr)
+    again = dns.tsigkeyring.from_text(back)
+    if again != kr or set(back) != set(dns.name.from_text(n).to_text() for n in names):
+        fail(ctx, "C14/tsigkeyring/roundtrip", f"from_text(to_text(keyring)) differs from the keyring: {back!r}", rep)
+    ctx.count("krtext.keyring")
+    # sign through the keyring (dict route of use_tsig), validate through the keyring round-tripped through text
+    i = c["use"]
+    n, sec, alg = names[i], secrets[i], c["algs"][i]
+    use_alg = alg or c["default_alg"]
+    m = mk_message(c["body"])
+    try:
+        m.use_tsig(kr, n if c["keyname_as_text"] else dns.name.from_text(n), fudge=300, algorithm=use_alg)
+        CLOCK.t = c["now"]
+        w = m.to_wire()
+    except BaseException as e:
+        fail(ctx, "C14/use_tsig/raises:" + type(e).__name__, f"use_tsig / to_wire with a text keyring raised {e!r}", rep)
+        return
+    want = dns.tsig.Key(dns.name.from_text(n), sec, dns.name.from_text(use_alg))
+    t = check_signed(ctx, c, rep, w, None, want, {"fudge": 300}, c["now"], b"", None, "use_tsig(text keyring)")
+    if t is None:
+        return
+    m2, e, log = lib_read(w, again, c["now"], b"", None, False)
+    corr_read(ctx, c, w, again, c["now"], b"", "none", False, m2, e, log)
+    if e is not None or not m2.had_tsig:
+        fail(ctx, "C14/validate/genuine-rejected/text-keyring", f"signed through a text keyring, rejected through the same keyring: {e!r}", rep)
+    ctx.count("krtext.signed." + ("bytes" if alg is None else "key"))
+
+
 def eval_usetsig(ctx, c, rep):
     """key and TSIG owner chosen by Message.use_tsig for every keyring shape; then the signed message validates"""
     keys = [mk_key(k) for k in c["keys"]]
@@ -1110,12 +1344,53 @@ def gen_body(rng, response=None, xfr=False):
     return {"id": rng.below(65536), "flags": flags, "q": q if (not xfr or rng.chance(1, 2)) else None, "rrs": rrs, "edns": rng.chance(1, 4)}
 
 
+def gen_exch(rng, flips=None):
+    body = gen_body(rng, response=False)
+    while body.get("update") or not body.get("q"):
+        body = gen_body(rng, response=False)
+    body["rrs"] = []
+    key = gen_key(rng, body["q"][0])
+    answers = []
+    for _ in range(rng.choice([0, 1, 2, 4])):
+        t, vals = rng.choice(RRPOOL)
+        answers.append([rng.choice([1, 1, 2, 3]), rng.choice(OWNER_NAMES), rng.choice([0, 60, 86400]), t, rng.choice(vals)])
+    qf = rng.choice(FUDGES)
+    rf = rng.choice([None, None, 0, 1, 300, 65535])
+    eff = 300 if rf is None else rf
+    c = {"kind": "exch", "key": key, "body": body, "answers": answers, "now": gen_now(rng) + 70000, "qfudge": qf, "rfudge": rf,
+         "skeyring": rng.choice(["key", "dict-key", "dict-bytes", "callable"]),
+         "d1": rng.choice([0, qf, 0]), "d2": rng.choice([0, 1, 5]), "d3": rng.choice([0, eff, -eff if eff < 1000 else 0, 0]),
+         "rerror": rng.choice([0, 0, 0, 0, 0, 18, 16, 17])}
+    if flips:
+        c["flips"] = flips
+    return c
+
+
+def gen_krtext(rng):
+    n = rng.range(1, 3)
+    names = []
+    while len(names) < n:
+        x = gen_name(rng)
+        if x.lower() not in [y.lower() for y in names]:
+            names.append(x)
+    body = gen_body(rng, response=False)
+    while body.get("update"):
+        body = gen_body(rng, response=False)
+    return {"kind": "krtext", "names": names, "secrets": [rng.bytes(rng.choice([1, 2, 3, 16, 32, 57, 64])).hex() for _ in names],
+            "algs": [rng.choice([None] * 6 + ALGS + ["HMAC-SHA512.", "hmac-sha256"]) for _ in names], "use": rng.below(n),
+            "default_alg": rng.choice(ALGS), "keyname_as_text": rng.chance(1, 2), "body": body, "now": gen_now(rng) + 70000}
+
+
 def gen_tsig(rng, idv):
     p = {"fudge": rng.choice(FUDGES)}
     if rng.chance(1, 3):
         p["orig_id"] = rng.choice([idv ^ 1, idv ^ 0x8000, rng.below(65536), 0, 65535])
     if rng.chance(1, 6):
         p["other"] = rng.bytes(rng.choice([1, 6, 6, 17])).hex()
+    if rng.chance(1, 12):
+        p["error"] = rng.choice(ERRS)   # a signed error answer (BADTIME carries the server time as other data)
+        if p["error"] == 18:
+            p["other"] = rng.bytes(6).hex()
     return p
 
 
@@ -1133,7 +1408,8 @@ def gen_msg(rng, flips, alg=None):
          "request_mac": rng.bytes(rng.choice([16, 20, 32, 64, 1])).hex() if rng.chance(1, 2) else "",
          "keyring": rng.choice(["key", "key", "dict-key", "dict-bytes", "callable"]),
          "deltas": sorted(set([0, rng.choice([f, -f]), rng.choice([f + 1, -f - 1])])),
-         "signer": rng.choice(["lib", "lib", "lib", "ref", "renderer"])}
+         "signer": rng.choice(["lib", "lib", "lib", "ref", "renderer"]),
+         "routes": rng.choice([0, 1, 2, 4, 8, 8, 3, 15])}
     if flips:
         c["flips"] = flips
     return c
@@ -1149,7 +1425,7 @@ def other_name(rng, name):
 def gen_reject(rng, mut=None):
     c = gen_msg(rng, None)
     c["kind"] = "reject"
-    c.pop("deltas"), c.pop("signer"), c.pop("keyring")
+    c.pop("deltas"), c.pop("signer"), c.pop("keyring"), c.pop("routes", None)
     mut = mut or rng.choice(MUTS)
     c["mut"] = mut
     c["arg"] = rng.below(1 << 16)
@@ -1169,6 +1445,10 @@ def gen_reject(rng, mut=None):
         c["other_mac"] = o.hex()
     elif mut == "tsig-error":
         c["tsig"]["error"] = rng.choice(ERRS)
+        c["signer"] = rng.choice(["lib", "renderer"])
+        if c["tsig"]["error"] == 18:
+            c["tsig"]["other"] = rng.bytes(6).hex()
+    c["tsig"].pop("error", None) if mut != "tsig-error" else None
     return c
 
 
@@ -1213,6 +1493,10 @@ def gen_fn(rng):
     wire = bytearray(rng.bytes(n))
     wire[10:12] = struct.pack("!H", rng.choice([0, 1, 1, 1, 2, 256, 65535]))
     op = rng.choice(["digest", "sign", "validate", "validate"])
+    if rng.chance(1, 40):
+        rd["other"] = rng.bytes(1).hex() * rng.choice([65534, 65535, 65536])   # the `other_len > 65535` test of _digest
+        rd["error"] = 0
+        op = rng.choice(["digest", "sign"])
     multi = rng.chance(1, 2)
     c = {"kind": "fn", "op": op, "key": key, "rdata": rd, "wire": bytes(wire).hex(), "multi": int(multi),
          "request_mac": rng.bytes(rng.choice([0, 0, 1, 16, 32])).hex(), "time": rng.choice([None, rd["time"], rng.below(2 ** 48)]),
@@ -1314,6 +1598,15 @@ def generate(ctx: Ctx, scale, rng, flips=True):
         go(gen_seq(rng, "all" if flips else 0), sample=False)
     for _ in range(n(120)):
         go(gen_usetsig(rng))
+    for _ in range(n(70)):
+        go(gen_exch(rng))
+    for _ in range(n(4)):
+        c = gen_exch(rng)
+        c["rerror"] = 0
+        c["flips"] = "all"
+        go(c, sample=False)
+    for _ in range(n(60)):
+        go(gen_krtext(rng))
     for _ in range(n(600)):
         go(gen_fn(rng))
     for _ in range(n(500)):
